@@ -86,6 +86,10 @@ type (
 	SIf struct {
 		C          GExpr
 		Then, Else []GStmt
+		// Held != "": the test is evaluated into a boolean variable first, the statements of Pre run,
+		// and the branch on the variable comes after them: `held := C; Pre…; if held {…}`
+		Held string
+		Pre  []GStmt
 	}
 	SFor struct { // for i := start; i cmp limit; i += step { body }
 		I            string
@@ -226,7 +230,13 @@ func (p *printer) stmt(s GStmt) {
 	case SOpAsg:
 		p.line(fmt.Sprintf("%s %s= %s", p.nm(x.N), x.Op, p.expr(x.E)))
 	case SIf:
-		p.line("if " + p.expr(x.C) + " {")
+		if x.Held != "" {
+			p.line(fmt.Sprintf("%s := %s", p.nm(x.Held), p.expr(x.C)))
+			p.stmts(x.Pre)
+			p.line("if " + p.nm(x.Held) + " {")
+		} else {
+			p.line("if " + p.expr(x.C) + " {")
+		}
 		p.indent++
 		p.stmts(x.Then)
 		p.indent--
@@ -568,7 +578,17 @@ func (g *pgen) stmt(acc string) []GStmt {
 		if g.r.Chance(60) {
 			el = g.block(1, acc)
 		}
-		return []GStmt{SIf{C: g.cond(), Then: th, Else: el}}
+		st := SIf{C: g.cond(), Then: th, Else: el}
+		if g.r.Chance(20) {
+			// the comparison is kept in a variable and branched on in a later block
+			st.Held = g.fresh("ok")
+			if g.depth < 2 && g.r.Chance(50) {
+				st.Pre = []GStmt{g.loop(acc)}
+			} else {
+				st.Pre = g.block(1, acc)
+			}
+		}
+		return []GStmt{st}
 	case c < 10 && g.depth < 2:
 		return []GStmt{g.loop(acc)}
 	case c < 11 && len(g.slcs) > 0 && g.depth < 2:
@@ -759,6 +779,8 @@ func (f *GFunc) localNames() []string {
 			case SDecl:
 				add(x.N)
 			case SIf:
+				add(x.Held)
+				walk(x.Pre)
 				walk(x.Then)
 				walk(x.Else)
 			case SFor:
